@@ -111,6 +111,23 @@ def _demean(x):
     return x - x.mean()
 
 
+def _ap_share(g):
+    return g.assign(share=g["d"] / g["d"].abs().sum())
+
+
+def _ap_span(g):
+    return g["d"].max() - g["d"].min()
+
+
+def _ap_s_demean(x):
+    return x - x.mean()
+
+
+def _ap_s_span(x):
+    return x.max() - x.min()
+
+
+APPLY = {"share": _ap_share, "span": _ap_span, "s-demean": _ap_s_demean, "s-span": _ap_s_span}
 TRANSFORMS = {"sum": "sum", "mean": "mean", "max": "max", "min": "min", "count": "count", "demean": _demean}
 
 # ---------------------------------------------------------------------------
@@ -499,6 +516,13 @@ def _frame(case):
     if case.get("nakey") and n:
         mask = r.random(n) < 0.2
         pdf.loc[mask, "b"] = None                                      # NA keys in the str column
+    if case.get("pre"):
+        # pre-step facet: an all-numeric frame, so that whole-frame groupby forms are valid: int keys a (few), g (many),
+        # h (codes of b), float columns c (NaN) and d
+        import pandas as pd
+
+        pdf["h"] = pd.factorize(pdf["b"])[0].astype("int64")
+        pdf = pdf[["a", "g", "h", "c", "d"]]
     # ---- ablations (only used to attribute a failure to an input feature, see _canonicalise) ----
     if case.get("nonegzero"):
         pdf["c"] = pdf["c"] + 0.0                                      # -0.0 -> 0.0
@@ -540,6 +564,61 @@ def _keys(df, case):
     return out
 
 
+PRE_KEYS = ("a", "h", "g")
+
+
+def _pre(x, pre, pdf0):
+    """the step(s) in front of the groupby, applied to the dask frame: they leave the frame with (or without)
+    knowledge about how its rows are distributed over the partitions"""
+    dd = frames_setup()
+    kind, K = pre["kind"], pre.get("keys") or []
+    if kind in ("shuffle", "shuffle+repartition"):
+        x = x.shuffle(on=K, shuffle_method=pre.get("method", "tasks"), **({"npartitions": pre["npartitions"]} if pre.get("npartitions") else {}))
+        if kind == "shuffle+repartition":
+            x = x.repartition(npartitions=pre["n"])
+    elif kind == "agg":
+        x = getattr(x.groupby(K), pre.get("fn", "sum"))(split_out=pre["split_out"], shuffle_method=pre.get("method", "tasks"))
+        x = x.reset_index()
+    elif kind == "merge":
+        other = pdf0[K].drop_duplicates().reset_index(drop=True)
+        other["w"] = (other.index.to_numpy() % 5).astype("float64")
+        x = x.merge(dd.from_pandas(other, npartitions=2), on=K, how="inner", shuffle_method=pre.get("method", "tasks"),
+                    broadcast=False)
+    elif kind == "set_index":
+        x = x.set_index(K[0])
+    elif kind == "repartition":
+        x = x.repartition(npartitions=pre["n"])
+    else:
+        raise ValueError(kind)
+    then = pre.get("then")
+    if then == "assign":
+        x = x.assign(z=x["c"] * 2)
+    elif then == "filter":
+        x = x[x["d"] > -2]
+    elif then == "assign-key":
+        x = x.assign(**{K[0]: x[K[0]] % 2})
+    return x
+
+
+def frames_setup():
+    from vf.gen import frames
+
+    return frames.setup()
+
+
+def _relation(K, G):
+    K, G = set(K), set(G)
+    if not K:
+        return "none"
+    if K == G:
+        return "equal"
+    if K > G:
+        return "superset"
+    if K < G:
+        return "subset"
+    return "overlap" if K & G else "disjoint"
+
+
 def _apply(df, case, dask_side, meta=None):
     op = case["op"]
     g = df.groupby(_keys(df, case), **case["gkw"])
@@ -562,6 +641,8 @@ def _apply(df, case, dask_side, meta=None):
     mkw = dict(akw, meta=meta) if dask_side else {}
     if k == "transform":
         return g.transform(TRANSFORMS[op["func"]], **mkw)
+    if k == "apply":
+        return g.apply(APPLY[op["func"]], **mkw)
     if k == "shift":
         return g.shift(op["periods"], **mkw)
     if k in ("ffill", "bfill"):
@@ -579,7 +660,7 @@ def _opname(op):
         return "agg"
     if k == "transform":
         return "transform"
-    return k
+    return k          # apply, shift, ffill, bfill, value_counts
 
 
 FAMILY = {"idxmin": "idxmin-idxmax", "idxmax": "idxmin-idxmax", "first": "first-last", "last": "first-last",
@@ -1310,7 +1391,7 @@ def _run(case, ctx):
         ctx.reject("pandas: %s: %s" % (type(ex).__name__, ex))
         return
     meta = None
-    if op["kind"] in ("transform", "shift"):
+    if op["kind"] in ("transform", "shift", "apply"):
         meta = expected.iloc[:0] if isinstance(expected, pd.DataFrame) else (expected.name, expected.dtype)
     try:
         ddf = frames.partition(pdf, case["part"])
